@@ -208,13 +208,13 @@ class TimeShim:
         self._loop = loop
 
     def monotonic(self) -> float:
-        return self._loop._vt
+        return self._loop.time()
 
     def time(self) -> float:
-        return 1_700_000_000.0 + self._loop._vt
+        return 1_700_000_000.0 + self._loop.time()
 
     def perf_counter(self) -> float:
-        return self._loop._vt
+        return self._loop.time()
 
 
 def run_sim(loop: SimLoop, main, *, teardown: bool = True):
